@@ -435,6 +435,12 @@ impl BlockData {
             transactions.append(&mut txs);
         }
 
+        // the parent of a block has to be in an earlier slot
+        if parent.0 >= slot {
+            warn!("parent of block in slot {slot} is not in an earlier slot");
+            return ReconstructBlockResult::Error;
+        }
+
         let block = Block {
             _slot: slot,
             hash: block_hash.clone(),
